@@ -74,7 +74,9 @@ def from_plan(shape, feats, i, for_codec=True):
     name = ("S%d" if shape != "enum" else "E%d") % i
     replace = []
     if "replace" in F:
-        replace = [["m2", "zz"], ["m2", "yy"], [name, "Renamed"]] if mods else [[name, "Renamed"], ["d%d" % i, "dd"]]
+        # overlapping search keys (first match wins), the type's own identifier, and a CHAIN: an earlier
+        # replacement text that is a later search text must not be substituted again
+        replace = [["m1", "m2"], ["m2", "zz"], ["m2", "yy"], [name, "Renamed"]] if mods else [["d%d" % i, name], [name, "Renamed"], ["zzz", "q"]]
     if shape == "struct_unit":
         return decl("struct", name, "unit", (), (), tparams=[], lifetimes=[], capture=capture, capture_text=ctext, replace=replace, docs=docs, mods=mods, inst=[])
     if shape != "enum":
@@ -83,7 +85,10 @@ def from_plan(shape, feats, i, for_codec=True):
     vs = [variant("A", docs=([" variant doc"] if "docs" in F else ())),
           variant("B", "unnamed", unn[:2]),
           variant("C", "named", fs)]
-    if "skip_variant" in F: vs.insert(1, variant("S", "unit", skip=True)); vs.insert(0, variant("S0", "unnamed", [field(None, U8)], skip=True))
+    if "skip_variant" in F:
+        vs.insert(1, variant("S", "unit", skip=True)); vs.insert(0, variant("S0", "unnamed", [field(None, U8)], skip=True))
+        if "codec_index" in F:      # a retired variant: reserved index AND skip, as two attributes in both orders
+            vs.insert(2, variant("R1", "unit", skip=True, cindex=90)); vs.insert(3, variant("R2", "unit", skip=True, cindex=91))
     if "codec_index" in F: vs[-1]["cindex"] = [200]; vs.append(variant("D", "unit", cindex=7))
     if "discriminant" in F:
         # explicit discriminants on a unit variant AND on a data variant (allowed with a primitive repr)
@@ -141,7 +146,8 @@ def rand_decl(r, i, for_codec=True):
     kind = r.choice(["struct", "struct", "enum"])
     name = ("R%d" if kind == "struct" else "Q%d") % i
     replace = []
-    if r.random() < 0.25: replace = r.choice([[[name, "Other"]], [["mm", "xx"], ["mm", "yy"]], [["nn", "oo"], [name, "N2"], ["zzz", "q"]]])
+    if r.random() < 0.3: replace = r.choice([[[name, "Other"]], [["mm", "xx"], ["mm", "yy"]], [["nn", "oo"], [name, "N2"], ["zzz", "q"]],
+                                               [["mm", "nn"], ["nn", "mm"]], [["mm", name], [name, "Last"]]])
     if kind == "struct":
         shape = r.choice(["named", "named", "unnamed", "unit"])
         if shape == "unit":
@@ -238,8 +244,11 @@ def decl_src(d, with_codec):
         s += "pub enum %s%s {\n" % (d["name"], gs)
         for v in d["variants"]:
             s += docs_src(v["docs"], "    ")
+            # several separate #[codec(..)] attributes on one variant, in both orders
+            first_index = v["cindex"] and (len(v["name"]) + (v["cindex"][0] if v["cindex"] else 0)) % 2 == 1
+            if v["cindex"] and first_index: s += "    #[codec(index = %d)]\n" % v["cindex"][0]
             if v["skip"]: s += "    #[codec(skip)]\n"
-            if v["cindex"]: s += "    #[codec(index = %d)]\n" % v["cindex"][0]
+            if v["cindex"] and not first_index: s += "    #[codec(index = %d)]\n" % v["cindex"][0]
             s += "    " + v["name"] + body_src(v["shape"], v["fields"], d, "    ", False, with_codec) + (" = %d" % v["discr"][0] if v["discr"] else "") + ",\n"
         s += "}\n"
     return s
